@@ -3,7 +3,7 @@
 P="$1"; shift
 cd /verif
 git -C /repo diff --quiet || { echo "/repo is dirty; refusing"; exit 2; }
-git -C /repo apply "$P" || { echo "patch does not apply"; exit 2; }
+git -C /repo apply "$(realpath "$P")" || { echo "patch does not apply"; exit 2; }
 for id in "$@"; do
   ./check "$id" --tier "${TIER:-quick}" > .scratch/mut-$id.out 2>&1; rc=$?
   echo "$id exit=$rc $(grep -c '^VIOLATION' .scratch/mut-$id.out) violation line(s): $(grep -m2 'violation \[' .scratch/mut-$id.out | cut -c1-260 | tr '\n' ' ')"
